@@ -11,7 +11,7 @@ FW = 2 * np.sqrt(2 * np.log(2))
 
 def gen_config(rng, tier, i=0, **fix):
     """Random admissible backend configuration (tiny sizes: defects are index/residue errors, not size effects)."""
-    P = int(common.pick(rng, [8, 16, 32, 64] + ([128] if tier == 'thorough' else [])))
+    P = int(common.pick(rng, [8, 16, 32, 64, 15, 25] + ([128] if tier == 'thorough' else [])))     # odd branch counts are admitted too
     M = int(rng.integers(2, 9))
     nchan = int(rng.integers(1, P // 2 + 1)) if rng.random() < 0.7 else int(common.pick(rng, [1, 2, P // 2]))
     nchan = min(nchan, 12)
